@@ -56,13 +56,29 @@ pub fn program_syms(prog: &asp::Program) -> Vec<String> {
 
 /// Evaluate one program at windows `ws`.
 pub fn evaluate(prog: &asp::Program, mode: Mode, limit: usize, rich: bool, ws: &[i128], conform: bool) -> Outcome {
+    evaluate_with(prog, mode, limit, rich, ws, conform, false)
+}
+
+/// `numeric`: integer-only active set {1,2} (or {0,1,2} if it fits) instead of the default mix of one or
+/// two integers and a symbol - needed where a multi-valued term must take two distinct values that are
+/// both inside the universe (programs marked by a leading `%numeric` comment)
+pub fn evaluate_with(prog: &asp::Program, mode: Mode, limit: usize, rich: bool, ws: &[i128], conform: bool, numeric: bool) -> Outcome {
     let preds: Vec<(String, usize)> = prog
         .predicates()
         .into_iter()
         .map(|p| (p.symbol, p.arity))
         .collect();
     let mut syms = program_syms(prog);
-    let active = choose_active(&preds, limit, &syms, rich);
+    let mut active = choose_active(&preds, limit, &syms, rich);
+    if numeric {
+        for c in [vec![Val::Int(0), Val::Int(1), Val::Int(2)], vec![Val::Int(1), Val::Int(2)]] {
+            let n: usize = preds.iter().map(|(_, a)| c.len().pow(*a as u32)).sum();
+            if n <= limit {
+                active = c;
+                break;
+            }
+        }
+    }
     for v in &active {
         if let Val::Sym(x) = v {
             if !syms.contains(x) {
@@ -255,6 +271,14 @@ pub fn inputs(quick: bool) -> Vec<String> {
             rules.push(inst(ctx, t));
         }
     }
+    for ctx in repeated_term_contexts() {
+        for t in &t1 {
+            rules.push(inst(ctx, t));
+            // the same under an integer-only active set: two distinct values of a multi-valued term
+            // must both be inside the universe for the positions to be seen as independent
+            rules.push(format!("%numeric\n{}", inst(ctx, t)));
+        }
+    }
     // comparison contexts: T_1 x T_0 (quick) / T_1 x T_1 restricted (thorough)
     let t0 = terms_exact(0, &lv);
     for (ci, ctx) in comparison_contexts().into_iter().enumerate() {
@@ -388,7 +412,7 @@ pub fn run(mode: Mode, run: &Run) {
         };
         let conform = i % 50 == 0 || i < 40;
         let o = std::panic::catch_unwind(std::panic::AssertUnwindSafe(|| {
-            evaluate(&prog, mode, limit, false, &[W0, W0 + 3], conform)
+            evaluate_with(&prog, mode, limit, false, &[W0, W0 + 3], conform, text.starts_with("%numeric"))
         }));
         let o = match o {
             Ok(o) => o,
@@ -460,7 +484,7 @@ pub fn replay(mode: Mode, v: &Value) -> i32 {
     };
     let mut res = vec![];
     for _ in 0..2 {
-        let o = evaluate(&prog, mode, 8, false, &[W0, W0 + 3], false);
+        let o = evaluate_with(&prog, mode, 8, false, &[W0, W0 + 3], false, text.starts_with("%numeric"));
         res.push(format!("{:?}", o.diffs));
     }
     if res[0] != res[1] {
